@@ -8,6 +8,7 @@ mod guard;
 mod obs;
 mod ops;
 mod schema_ops;
+mod samename;
 mod script;
 
 use gen::Gen;
@@ -73,6 +74,9 @@ fn main() {
             run(&mut ge, &budget, &mut out);
         }
         schema_ops::containers(&mut g, if thorough { 60000 } else { 4000 }, &mut out);
+        if prop == "C08" || prop == "C09" {
+            samename::same_name_cases(&mut g, &mut out);
+        }
         if prop == "C17" {
             for run in catalogue::schema_perturbed() {
                 run(&mut g, &mut out);
